@@ -583,8 +583,23 @@ impl C06 {
         k = if rng.chance(1, 6) { 1 + rng.usize(3) } else { 2 };
         let n = 2 + rng.usize(5);
         let n = n + rng.usize(3);
-        lines.push(format!("create f={} {}", 1 + rng.usize(5), rows(rng, k, n, &mut next_key)));
+        // a quarter of the cases start with: two deletes on the one fragment (two deletion files over the same data
+        // file), restores of both, and a cleanup with delete_unverified that retains exactly the two restored versions
+        let scripted = n >= 3 && rng.chance(1, 4);
+        let f_create = if scripted { n } else { 1 + rng.usize(5) };
+        let created = rows(rng, k, n, &mut next_key);
+        lines.push(format!("create f={f_create} {created}"));
         kver.push(k);
+        if scripted {
+            lines.push(format!("delete {n}"));
+            lines.push(format!("delete {}", n - 1));
+            lines.push("restore ~1".to_string());
+            lines.push("restore ~1".to_string());
+            lines.push("cleanup ~1 1 0".to_string());
+            for _ in 0..4 {
+                kver.push(k);
+            }
+        }
         let len = match tier {
             Tier::Quick => 5 + rng.usize(7),
             _ => 6 + rng.usize(6),
